@@ -98,3 +98,22 @@ class XmlEventWriter(XmlWriter):
         self.pending_end_element = True
         if not self.current_level:
             self.handler.ignorableWhitespace("\n")
+
+    def set_characters(self, data: str) -> None:
+        """Write element text, carriage returns as character references.
+
+        A literal carriage return is normalized to a line feed by every xml
+        parser, the generator only escapes the markup characters.
+
+        Args:
+            data: The element text or tail content
+        """
+        if "\r" not in data:
+            self.handler.characters(data)
+            return
+
+        for index, chunk in enumerate(data.split("\r")):
+            if index:
+                self.handler.ignorableWhitespace("&#13;")
+            if chunk:
+                self.handler.characters(chunk)
